@@ -270,6 +270,35 @@ def main(argv=None):
                 known_hits.append((f, known_ids[f['id']]))
             else:
                 violations.append((r, f))
+    # A unit the verifier could not decide (lost anchor, construct outside the rules, collaborator API changed) proves
+    # nothing. If the unit has an executable restatement of its contracts (witness harness), it is run on the real code:
+    # a concrete failing input is a violation of the named obligation whatever the state of the proof; none found leaves
+    # the unit undecided (exit 2).
+    undecided_witnesses = []
+    for r in undecided:
+        wp = os.path.join(ROOT, 'units', r['unit'], 'witness.json')
+        if r['backend'] == 'kani' or not os.path.exists(wp):
+            continue
+        from . import witness as W
+        try:
+            ws = W.run_witness(r['unit'], [], seed)
+        except Exception as e:
+            r['notes'].append(f'witness search on the undecided unit failed: {e}')
+            continue
+        seen = set()
+        for w in ws:
+            oid = f"{r['unit']}.witness.{w['obligation_label']}"
+            undecided_witnesses.append(w)
+            if oid in seen:
+                continue
+            seen.add(oid)
+            f = {'id': oid, 'kind': 'contract restated as an executable check fails on the real code (unit not decided by the verifier)',
+                 'where': w['input'][:300], 'message': 'verifier output: ' + ' | '.join(r['notes'])[:1500]}
+            r['failed'].append(f)
+            if oid in known_ids:
+                known_hits.append((f, known_ids[oid]))
+            else:
+                violations.append((r, f))
     # bounded stand-ins are run and can raise violations, but are never counted as proved
     bounded_ids = set(o for r in results for o in r.get('bounded_obligations', []))
     total_ob = sum(1 for r in results for o in r['obligations'] if o not in bounded_ids)
@@ -279,7 +308,7 @@ def main(argv=None):
     replay_path = None
     witnesses = []
     if violations:
-        witnesses = witness_search(a.prop, results, seed)
+        witnesses = witness_search(a.prop, results, seed) + undecided_witnesses
         os.makedirs(os.path.join(ROOT, 'replays'), exist_ok=True)
         h = hashlib.sha256(('|'.join(sorted(f['id'] for _, f in violations))).encode()).hexdigest()[:10]
         replay_path = os.path.join(ROOT, 'replays', f'{a.prop}-{h}.json')
